@@ -1316,6 +1316,8 @@ func init() {
 			{Name: "SORT-ALL", What: "(*Index).sort orders bins, each bin's chunks and the linear index of every reference on every way round its loop (added after fifth-round seed C15-f)", Floor: 5, Run: ruleSortAll},
 			{Name: "STATS-ADD", What: "Add increments exactly one of mapped/unmapped/unplaced per accepted record, selected by its arguments; tabix names follow references", Floor: 4, Run: ruleStatsAdd},
 			{Name: "NAMES-SPLIT", What: "tabix.readTabixHeader takes the name list apart with an operation that keeps empty names (strings.Split on the terminator), none that drops empty fields or trims more than one terminator: the writer writes one terminator per name (added after seventh-round seed C15-h)", Floor: 1, Run: ruleNamesSplit},
+			{Name: "INTERVAL-LIMIT", What: "a bound on the linear index's length in readIntervals admits all 2^29/16384 tiles the writer can produce (added after ninth-round seed C04-i)", Floor: 1, Run: ruleIntervalLimit},
+			{Name: "SORTED-SETTER", What: "an index's sorted flag is set to true only in a function that sorts the bins by number, itself or through its callees: sort() and the readers (added after ninth-round seed C04-j)", Floor: 4, Run: ruleSortedSetter},
 			{Name: "BIT-VOFFSET", What: "vOffset/makeOffset are inverse (bit domain)", Floor: 6, Run: ruleVOffset},
 		},
 		Explanation: "A symmetric mistake survives a round trip and an asymmetric one breaks it; both are visible when the writer's and the reader's item sequences are laid side by side. The WIRE rules flatten each writer and reader (helpers inlined in call order) into items (width, loop depth, version condition, field role) and compare them position by position; COUNT-ONE covers the one place where the two sides are shaped differently (the statistics pseudo-bin: written after the bins from an array literal, read inside the bin loop); ELEM-COVER, FLAG-TABIX, STATS-ADD and PATH-SORT-BEFORE-WRITE cover element indexing, the packed format word, the counters and the canonical order that 'identical bytes' relies on.",
